@@ -787,3 +787,170 @@ func recursiveComparisonsMemoised(r *an.Run, rule string) {
 	r.Count("comparison callbacks of diff.Difference", n)
 	r.Min("comparison callbacks of diff.Difference", 2)
 }
+
+// eachChangeOnItsOwn (C13-R9, C14-R1): what one change's text parses and
+// compiles to does not depend on the changes before it.
+//   - parsePatchVersion hands back the result of the pgo.Parse call it makes
+//     itself (no cache keyed by the text: a cached tree carries the lines of
+//     the change it was first parsed from, and '+' elisions are paired with
+//     '-' elisions by line and column);
+//   - the methods of the patch parser store nothing into the parser;
+//   - compileChange compiles with compilers created in that very call, and
+//     nothing in package engine truncates a slice held in a field to length
+//     zero to re-use its storage (x.f = x.f[:0]): sub-slices of it were
+//     handed to the matchers of the previous change.
+func eachChangeOnItsOwn(r *an.Run, rule string) {
+	r.Rule(rule)
+	n := 0
+	if f := fn(r, parseP, "parser.parsePatchVersion"); f != nil {
+		var parse *ssa.Call
+		for _, c := range an.Calls(f) {
+			if sc := an.StaticCallee(c); sc != nil && short(sc) == "internal/pgo.Parse" {
+				parse, _ = c.(*ssa.Call)
+			}
+		}
+		if r.Check(parse != nil, short(f)+"|parses", f.Pos(), "parsePatchVersion parses the version it is given with pgo.Parse") {
+			for _, ret := range an.Returns(f) {
+				for _, leaf := range phiLeaves(ret.Results[0]) {
+					if an.IsNilConst(leaf) {
+						continue
+					}
+					n++
+					ex, ok := leaf.(*ssa.Extract)
+					r.Check(ok && ex.Tuple == ssa.Value(parse) && ex.Index == 0, short(f)+"|returns-its-own-parse", ret.Pos(), "the tree parsePatchVersion returns is the one pgo.Parse produced from these very lines in this call (got %s): a tree remembered from an earlier, textually equal version carries that version's line numbers", an.Describe(leaf))
+				}
+			}
+		}
+	}
+	// the parser object carries nothing from one change to the next
+	for _, f := range r.P.PkgFuncs(parseP) {
+		recv := recvValue(f)
+		if recv == nil || f.Blocks == nil || !strings.HasSuffix(an.ShortType(recv.Type()), "parse.parser") {
+			continue
+		}
+		for _, in := range an.StoresIn(f) {
+			var addr ssa.Value
+			switch x := in.(type) {
+			case *ssa.Store:
+				addr = x.Addr
+			case *ssa.MapUpdate:
+				addr = x.Map
+			}
+			root := an.Root(addr)
+			for {
+				if u, ok := root.(*ssa.UnOp); ok {
+					root = an.Root(u.X)
+					continue
+				}
+				break
+			}
+			n++
+			if root == ssa.Value(recv) {
+				r.Fail(short(f)+"|parser-state|"+an.Path(addr), in.Pos(), "%s stores into the patch parser (%s): what one change leaves there is seen when the next is parsed", short(f), an.Path(addr))
+			}
+		}
+	}
+	// fresh compilers per change
+	if f := fn(r, engine, "compiler.compileChange"); f != nil {
+		for _, name := range []string{"matcherCompiler", "replacerCompiler"} {
+			fresh := 0
+			for _, c := range an.Calls(f) {
+				sc := an.StaticCallee(c)
+				if sc == nil || !an.InModule(sc) || sc.Signature.Results().Len() != 1 || !strings.HasSuffix(an.ShortType(sc.Signature.Results().At(0).Type()), "engine."+name) {
+					continue
+				}
+				n++
+				// the constructor returns a fresh allocation on every path
+				ok := len(an.Returns(sc)) > 0
+				for _, ret := range an.Returns(sc) {
+					if _, isAlloc := ret.Results[0].(*ssa.Alloc); !isAlloc {
+						ok = false
+					}
+				}
+				if ok {
+					fresh++
+				} else {
+					r.Fail(short(f)+"|fresh-"+name, c.Pos(), "the %s a change is compiled with comes from %s, which does not allocate a new one on every call: lists the previous change's matchers still refer to are overwritten", name, short(sc))
+				}
+			}
+			r.Check(fresh >= 1, short(f)+"|fresh-"+name+"|created", f.Pos(), "compileChange creates a new %s for the change", name)
+		}
+	}
+	// no storage reuse by truncation of a slice held in a field
+	for _, f := range r.P.ModuleFuncs() {
+		rel := strings.TrimPrefix(strings.TrimPrefix(an.FuncPkgPath(f), an.Module), "/")
+		if rel != engine && rel != parseP && rel != sectRel && rel != dataRel {
+			continue
+		}
+		for _, b := range f.Blocks {
+			for _, in := range b.Instrs {
+				sl, ok := in.(*ssa.Slice)
+				if !ok || sl.Max != nil || sl.High == nil {
+					continue
+				}
+				if k, isc := an.ConstInt(sl.High); !isc || k != 0 {
+					continue
+				}
+				if _, isSlice := sl.X.Type().Underlying().(*types.Slice); !isSlice {
+					continue
+				}
+				n++
+				ld, ok := sl.X.(*ssa.UnOp)
+				if !ok {
+					continue
+				}
+				if fa, ok := ld.X.(*ssa.FieldAddr); ok {
+					r.Fail(short(f)+"|storage-reuse|"+fieldNameOf(fa), sl.Pos(), "%s truncates the slice in field %s to length zero to re-use its storage: slices of it that were handed out earlier (the per-section name lists of a compiled matcher, recorded matches) are overwritten by what is appended next", short(f), fieldNameOf(fa))
+				}
+			}
+		}
+	}
+	r.Count("per-change independence sites", n)
+	r.Min("per-change independence sites", 3)
+	r.Pass("each-change-on-its-own", 0, "%d sites inspected: versions are parsed in the call that returns them, the parser keeps no state, compilers are created per change, no field slice is truncated for reuse", n)
+}
+
+// positionsResolvedByTheFileSet (C19-R6): the compiler and the parser see
+// positions from several token.Files of one patch (the patch file itself, one
+// synthetic file per metavariables section, one per '-' / '+' version). A
+// position is therefore turned into file:line:column by the FileSet, or by
+// the token.File that the FileSet returned for that very position in the same
+// function — never by a file that was looked up for another position and
+// remembered: go/token clamps an offset that lies outside the file instead of
+// failing, so the diagnostic would silently carry a wrong line and column.
+func positionsResolvedByTheFileSet(r *an.Run, rule string) {
+	r.Rule(rule)
+	nSet, nFile := 0, 0
+	for _, f := range r.P.ModuleFuncs() {
+		rel := strings.TrimPrefix(strings.TrimPrefix(an.FuncPkgPath(f), an.Module), "/")
+		if rel != engine && rel != parseP {
+			continue
+		}
+		for _, c := range an.Calls(f) {
+			switch {
+			case an.IsCallTo(c, "(*go/token.FileSet).Position", "(*go/token.FileSet).PositionFor"):
+				nSet++
+			case an.IsCallTo(c, "(*go/token.File).Position", "(*go/token.File).PositionFor", "(*go/token.File).Line"):
+				nFile++
+				args := c.Common().Args
+				recv, pos := args[0], args[1]
+				good := false
+				for v := range an.BackSlice(recv, an.SliceOpts{}) {
+					if fc, ok := v.(*ssa.Call); ok && an.IsCallTo(fc, "(*go/token.FileSet).File") && fc.Call.Args[1] == pos {
+						good = true
+					}
+				}
+				// and not through memory
+				if ld, ok := recv.(*ssa.UnOp); ok {
+					if _, isField := ld.X.(*ssa.FieldAddr); isField {
+						good = false
+					}
+				}
+				r.Check(good, short(f)+"|"+lastSegment(an.CalleeName(c))+"|own-file", c.Pos(), "%s resolves a position against the token.File the FileSet returned for that very position (not a file remembered from another position: the patch's positions live in several files)", short(f))
+			}
+		}
+	}
+	r.Count("positions resolved by the FileSet in engine and parse", nSet)
+	r.Min("positions resolved by the FileSet in engine and parse", 6)
+	r.Pass("resolved-by-the-fileset", 0, "%d positions are resolved by the FileSet itself, %d by a token.File looked up for the position", nSet, nFile)
+}
